@@ -63,7 +63,7 @@ type stepSpec struct {
 
 // one event of a history; everything needed to replay it is in here
 type event struct {
-	K   string `json:"k"` // region create add addw promote hb push remove deliver drop foreign age slow poke
+	K   string `json:"k"` // region create add addw promote hb push remove deliver drop foreign age slow poke influence vanish pollgone
 	Rid uint64 `json:"rid,omitempty"`
 	ID  int    `json:"id,omitempty"`
 	IDs []int  `json:"ids,omitempty"`
@@ -304,6 +304,39 @@ func (w *world) exec(e event) (string, obs) {
 	// one): such references are dropped, an event left without operator is not part of the history
 	exists := func(id int) bool { return id >= 1 && id <= len(w.ops) && w.ops[id-1] != nil }
 	switch e.K {
+	case "hb", "foreign":
+		if w.sims[e.Rid] == nil { // the region was merged away: nobody reports or changes it any more
+			if e.K == "hb" {
+				return "EHeartbeat " + coqfmt.ZU(e.Rid), obs{Res: -1}
+			}
+			return "", obs{}
+		}
+	case "deliver":
+		if w.sims[e.Rid] == nil {
+			return "EDeliver " + coqfmt.ZU(e.Rid), obs{Res: -1}
+		}
+	}
+	switch e.K {
+	case "influence":
+		w.oc.GetOpInfluence(w.tc)
+		return "EInfluence", obs{Res: -1}
+	case "vanish":
+		sim := w.sims[e.Rid]
+		if sim == nil {
+			return "", obs{}
+		}
+		w.tc.RemoveRegion(w.tc.GetRegion(e.Rid))
+		delete(w.sims, e.Rid)
+		return "EVanish " + coqfmt.ZU(e.Rid), obs{Res: -1}
+	case "pollgone":
+		// PushOperators examines the earliest entry of its queue first; with a single running operator whose region PD no
+		// longer knows that entry is this operator's (entries of operators that left the running set are skipped)
+		running := w.oc.GetOperators()
+		if len(running) != 1 || running[0].RegionID() != e.Rid || w.tc.GetRegion(e.Rid) != nil {
+			return "", obs{}
+		}
+		w.oc.PushOperators()
+		return "EPollGone " + coqfmt.ZU(e.Rid), obs{Res: -1, Sent: w.collect()}
 	case "add", "addw":
 		var ids []int
 		for _, id := range e.IDs {
@@ -656,6 +689,50 @@ func genForeignAddLearner(r *rng.R, w *world, rid uint64) event {
 	return event{K: "foreign", Rid: rid, F: "add-learner", FStore: s, FID: w.pid(w.c, s) + 500}
 }
 
+// move k >= 2 voters to free stores (with joint consensus: add learners, enter, leave, trailing removes)
+func genMoveTarget(r *rng.R, sim *tikvsim.Sim) ([]peerSpec, uint64) {
+	occ := map[uint64]bool{}
+	var voters []uint64
+	for _, p := range sim.Meta.Peers {
+		occ[p.StoreId] = true
+		if p.Role == metapb.PeerRole_Voter {
+			voters = append(voters, p.StoreId)
+		}
+	}
+	var free []uint64
+	for s := uint64(1); s <= nStores; s++ {
+		if !occ[s] {
+			free = append(free, s)
+		}
+	}
+	k := 2 + r.Intn(2)
+	if k > len(voters) {
+		k = len(voters)
+	}
+	if k > len(free) {
+		k = len(free)
+	}
+	moved := map[uint64]bool{}
+	for _, i := range r.Perm(len(voters))[:k] {
+		moved[voters[i]] = true
+	}
+	var ps []peerSpec
+	for _, p := range sim.Meta.Peers {
+		if moved[p.StoreId] {
+			continue
+		}
+		role := "voter"
+		if p.Role == metapb.PeerRole_Learner {
+			role = "learner"
+		}
+		ps = append(ps, peerSpec{Store: p.StoreId, ID: p.Id, Role: role})
+	}
+	for i := 0; i < k; i++ {
+		ps = append(ps, peerSpec{Store: free[i], Role: "voter"})
+	}
+	return ps, 0
+}
+
 // a target that only demotes followers (and possibly adds a learner): with joint consensus the plan is
 // [.. ChangePeerV2Enter [] dv; ChangePeerV2Leave [] dv]
 func genDemoteTarget(r *rng.R, sim *tikvsim.Sim) ([]peerSpec, uint64) {
@@ -822,6 +899,8 @@ func runCase(rec *tikvsim.Recorder, c *caseIn, r *rng.R, mode string, maxEvents 
 			}
 			if mode == "shadow" && r.Pct(60) {
 				e.Target, e.TLeader = genDemoteTarget(r, w.sims[rid])
+			} else if mode == "lifecycle" && r.Pct(20) {
+				e.Target, e.TLeader = genMoveTarget(r, w.sims[rid])
 			} else if r.Pct(22) {
 				e.Steps = genSteps(r, w, rid)
 			} else {
@@ -854,7 +933,7 @@ func runCase(rec *tikvsim.Recorder, c *caseIn, r *rng.R, mode string, maxEvents 
 				if shadow {
 					shadowAt, foreignAt = r.Intn(4), -1
 				}
-				for round := 0; round < 10 && len(evs) < maxEvents; round++ {
+				for round := 0; round < 14 && len(evs) < maxEvents; round++ {
 					if round == foreignAt {
 						do(genForeign(r, w, rid))
 					}
@@ -894,6 +973,9 @@ func runCase(rec *tikvsim.Recorder, c *caseIn, r *rng.R, mode string, maxEvents 
 					case 5:
 						do(event{K: "age", ID: id})
 					}
+					if r.Pct(8) {
+						do(event{K: "influence"})
+					}
 					do(event{K: "hb", Rid: rid})
 					if len(w.oc.GetOperators()) == 0 && len(w.inbox) == 0 {
 						break
@@ -902,6 +984,56 @@ func runCase(rec *tikvsim.Recorder, c *caseIn, r *rng.R, mode string, maxEvents 
 				if r.Pct(15) { // the holder of the operator keeps calling its methods after it ended
 					for k := 1 + r.Intn(3); k > 0; k-- {
 						do(genPoke(r, id))
+					}
+				}
+			}
+		} else if mode == "vanish" {
+			// the region is merged away while an operator runs on it; deadlines pass, schedulers ask for the influence,
+			// the push loop finds the region gone
+			rid := w.rids[0]
+			create(rid)
+			if n := len(w.ops); n > 0 && w.ops[n-1] != nil {
+				id := n
+				do(event{K: "add", IDs: []int{id}})
+				for k := r.Intn(3); k > 0; k-- {
+					for len(w.inbox) > 0 {
+						do(event{K: "deliver", Rid: rid})
+					}
+					do(event{K: "hb", Rid: rid})
+				}
+				pre := []event{}
+				if r.Pct(60) {
+					pre = append(pre, event{K: "slow", ID: id})
+				}
+				if r.Pct(70) {
+					pre = append(pre, event{K: "influence"})
+				}
+				if r.Pct(15) {
+					pre = append(pre, genPoke(r, id))
+				}
+				if r.Pct(50) { // before or after the region disappears
+					for _, e := range pre {
+						do(e)
+					}
+					do(event{K: "vanish", Rid: rid})
+				} else {
+					do(event{K: "vanish", Rid: rid})
+					for _, e := range pre {
+						do(e)
+					}
+				}
+				if r.Pct(30) {
+					do(event{K: "push", Rid: rid})
+				}
+				do(event{K: "pollgone", Rid: rid})
+				for k := r.Intn(3); k > 0; k-- {
+					switch r.Pick(40, 30, 30) {
+					case 0:
+						do(genPoke(r, id))
+					case 1:
+						do(event{K: "influence"})
+					case 2:
+						do(event{K: "hb", Rid: rid})
 					}
 				}
 			}
@@ -940,11 +1072,13 @@ func runCase(rec *tikvsim.Recorder, c *caseIn, r *rng.R, mode string, maxEvents 
 			n := 8 + r.Intn(maxEvents-8)
 			for len(evs) < n {
 				rid := pickRid()
-				switch r.Pick(16, 14, 6, 2, 18, 14, 3, 5, 4, 8, 3, 3, 5) {
+				switch r.Pick(16, 14, 6, 2, 18, 14, 3, 5, 4, 8, 3, 3, 5, 3) {
 				case 12:
 					if id := anyOp(); id != 0 {
 						do(genPoke(r, id))
 					}
+				case 13:
+					do(event{K: "influence"})
 				case 0:
 					create(rid)
 				case 1:
@@ -1029,7 +1163,8 @@ func main() {
 		"peer ids distinct from store ids in 85 % of the cases) or from explicit steps of every kind, AddOperator / AddWaitingOperator / Promote / " +
 		"Dispatch(heartbeat) / Dispatch(push) / RemoveOperator, commands executed (or dropped) by tikvsim, foreign changes (incl. the shadow scenario: " +
 		"the operator's command is lost, somebody else changes the region and then issues that very command), direct calls of the Operator's " +
-		"exported status methods (walks over the status matrix), expiry and timeout by " +
+		"exported status methods (walks over the status matrix), GetOpInfluence, regions merged away under a running operator and the push loop's " +
+		"region-disappeared branch (real PushOperators), expiry and timeout by " +
 		"back-dated reach times; non-trivial = some operator started, some command was applied and some operator ended; distinct by sha256 of the case text"
 	cf := &coqfmt.CaseFile{Dir: *out, Prefix: "C09", PerFile: 100,
 		Header: "From Coq Require Import String.\nFrom PDV Require Import lib.Base model.C08_Steps model.C09_OpCtl.\nLocal Open Scope string_scope.\nLocal Open Scope list_scope.\nLocal Open Scope Z_scope.\n",
@@ -1122,7 +1257,9 @@ func main() {
 				c.MaxWaiting = 1 + r.Intn(2)
 			}
 			mode := "lifecycle"
-			switch r.Pick(40, 36, 14, 10) {
+			switch r.Pick(36, 34, 13, 9, 8) {
+			case 4:
+				mode = "vanish"
 			case 3:
 				mode = "walk"
 			case 1:
